@@ -26,7 +26,7 @@ def ort():
 
 NP2TP = {
     "float32": TP.FLOAT, "float64": TP.DOUBLE, "float16": TP.FLOAT16, "int64": TP.INT64, "int32": TP.INT32,
-    "uint8": TP.UINT8, "int8": TP.INT8, "bool": TP.BOOL, "uint32": TP.UINT32, "int16": TP.INT16,
+    "uint8": TP.UINT8, "int8": TP.INT8, "bool": TP.BOOL, "uint32": TP.UINT32, "int16": TP.INT16, "uint64": TP.UINT64,
 }
 
 
@@ -34,6 +34,28 @@ def vi(name, dtype, shape):
     """value_info; dtype: numpy dtype name or TensorProto int; shape: list (str = symbolic, None dim) or None."""
     t = NP2TP[dtype] if isinstance(dtype, str) else dtype
     return h.make_tensor_value_info(name, t, shape)
+
+
+def schema_values(op: str, attr: str, opset: int) -> list:
+    """Value space of an enumerated string attribute, read from the *installed* ONNX schema of `op` at `opset`
+    (not from the rule's source): e.g. Pad.mode at 19+ includes `wrap`; ScatterND.reduction grows with the opset."""
+    import re
+    try:
+        sch = onnx.defs.get_schema(op, opset)
+        desc = sch.attributes[attr].description
+    except Exception:
+        return []
+    first = desc.split(". ")[0]
+    ticks = re.findall(r"`([A-Za-z_]{3,})`", first)
+    if ticks:
+        return list(dict.fromkeys(ticks))
+    caps = re.findall(r"\b[A-Z][A-Z_]{3,}\b", first)
+    if caps:
+        return list(dict.fromkeys(caps))
+    if ":" in first:
+        toks = [t.strip().split(" ")[0] for t in first.split(":", 1)[1].split(",")]
+        return [t for t in dict.fromkeys(toks) if re.fullmatch(r"[a-z_]+", t)]
+    return []
 
 
 class Host:
@@ -89,7 +111,8 @@ class Host:
 
     def model(self, infer: bool = True) -> onnx.ModelProto:
         g = h.make_graph(self.nodes, "g", self.inputs, self.outputs, self.inits, value_info=self.value_info)
-        m = h.make_model(g, opset_imports=[h.make_opsetid("", self.opset)] + self.extra_opsets, ir_version=10)
+        ops = [h.make_opsetid("", self.opset)] + self.extra_opsets
+        m = h.make_model(g, opset_imports=ops, ir_version=max(10, h.find_min_ir_version_for(ops)))
         if infer:
             try:
                 m = onnx.shape_inference.infer_shapes(m, data_prop=True)
